@@ -41,6 +41,7 @@ type nodeCase struct {
 	events        []nodeEvent
 	crashLog      *logDB
 	crashDone     bool
+	pw            *poolWatch
 	initLogLen    int
 	dumpAfterInit string
 	blockTxs      map[string][]*txInfo // block name -> its transactions (coinbase first)
@@ -83,13 +84,16 @@ func newNodeCase(c *Ctx, mode string, E uint64, nVal, local int, pend uint64) *n
 	if local >= 0 {
 		localS = fmt.Sprint(local)
 	}
+	if mode == "pool" {
+		nc.poolInit()
+	}
 	nc.dumpAfterInit = nc.dump("ok")
 	nc.emit(fmt.Sprintf("reset E=%d V=%d local=%s pend=%d interval=%d%s", E, nVal, localS, pend, nodeInterval, caseTag), nc.dumpAfterInit)
 	return nc
 }
 
 func (nc *nodeCase) ledgerMode() bool {
-	return nc.mode == "ledger" || nc.mode == "rules" || nc.mode == "crash"
+	return nc.mode == "ledger" || nc.mode == "rules" || nc.mode == "crash" || nc.mode == "pool"
 }
 
 func (nc *nodeCase) close() {
@@ -110,6 +114,9 @@ func (nc *nodeCase) dump(res string) string {
 	parts := []string{"res=" + res, n.dumpStored(nc.nm), n.dumpChain(nc.nm, nc.maxH), n.dumpOrphans(nc.nm), n.dumpCasper(nc.nm)}
 	if nc.ledgerMode() {
 		parts = append(parts, n.dumpUtxo(nc.ln), n.dumpContracts(nc.ln))
+	}
+	if nc.mode == "pool" && nc.pw != nil {
+		parts = append(parts, nc.dumpPool("the last event"))
 	}
 	return strings.Join(parts, " ")
 }
@@ -132,6 +139,7 @@ func (nc *nodeCase) defBlock(parent string, slotSkip uint64, arb byte, txInfos [
 	spec := blockSpec{parent: p, slotSkip: slotSkip, arb: arb, txs: txs, rewards: ck.Rewards, ckptTs: ck.Timestamp, nVal: len(nc.env.keys)}
 	b := nc.env.buildBlock(spec)
 	if _, dup := nc.nm.byHash[b.Hash()]; dup {
+		nc.env.useLocalKey()
 		return ""
 	}
 	r := nc.ref.processBlock(b)
@@ -197,13 +205,9 @@ func (nc *nodeCase) deliver(name string, sups ...supSpec) procResult {
 	b := cloneBlock(nc.nm.blocks[name])
 	op := "deliver " + name
 	if len(sups) > 0 {
+		// one part per signature, in the order AddSupLink is called (a later signature for the
+		// same source and slot replaces an earlier one)
 		var parts []string
-		type key struct {
-			src string
-			h   uint64
-		}
-		grouped := map[key][]string{}
-		var order []key
 		for _, sp := range sups {
 			var srcHash bc.Hash
 			if sb, ok := nc.nm.blocks[sp.src]; ok {
@@ -216,18 +220,11 @@ func (nc *nodeCase) deliver(name string, sups ...supSpec) procResult {
 			if sp.valid && sp.order < len(nc.env.keys) {
 				nc.noteValid(sp.src, name, sp.order)
 			}
-			k := key{sp.src, sp.srcHeight}
-			if _, ok := grouped[k]; !ok {
-				order = append(order, k)
-			}
 			v := "x"
 			if sp.valid {
 				v = "v"
 			}
-			grouped[k] = append(grouped[k], fmt.Sprintf("%d%s", sp.order, v))
-		}
-		for _, k := range order {
-			parts = append(parts, fmt.Sprintf("%s:%d:%s", k.src, k.h, strings.Join(grouped[k], ",")))
+			parts = append(parts, fmt.Sprintf("%s:%d:%d%s", sp.src, sp.srcHeight, sp.order, v))
 		}
 		op += " sup=" + strings.Join(parts, ";")
 	}
@@ -530,6 +527,25 @@ func (nc *nodeCase) oracleAfterEvent(op string, r procResult) {
 		if nc.restarted {
 			suffix = "-after-restart"
 		}
+		// the link that justifies a checkpoint must come from one of its ancestors (Casper FFG);
+		// O16-1: neither AuthVerification nor applySupLinks checks that
+		if closure[name] && name != "b0" && !nc.justSeen["A"+name] {
+			viaAncestor := false
+			for k := range nc.recvValid {
+				src, tgt := k[:strings.IndexByte(k, '>')], k[strings.IndexByte(k, '>')+1:]
+				if tgt == name && super(k) && closure[src] {
+					for _, a := range nc.ancestors(name)[1:] {
+						if a == src {
+							viaAncestor = true
+						}
+					}
+				}
+			}
+			if !viaAncestor {
+				nc.justSeen["A"+name] = true
+				nc.c.Fail(sig("C16", "justified-by-non-ancestor-link"+suffix), fmt.Sprintf("after %s: %s is justified only through a supermajority link whose source is not one of its ancestors", op, name))
+			}
+		}
 		if !closure[name] && !nc.justSeen[name] {
 			nc.justSeen[name] = true
 			nc.c.Fail(sig("C17", "justified-without-supermajority"+suffix), fmt.Sprintf("after %s: %s is justified, but the validly signed votes that reached the node do not form a chain of supermajority links (> 2/3 of %d validators) from genesis to it", op, name, nVal))
@@ -657,6 +673,10 @@ func runNodeCase(c *Ctx, mode string, seed int64, k int) {
 		genCaseRules(c, mode)
 	case "crash":
 		genCaseCrash(c, mode)
+	case "pool":
+		genCasePool(c, mode)
+	case "conc":
+		genCaseConc(c, mode)
 	default:
 		genCaseTree(c, mode)
 	}
@@ -830,6 +850,10 @@ func (nc *nodeCase) campaign() {
 	src := anc[0] // usually the direct parent checkpoint
 	if rng.Intn(4) == 0 {
 		src = anc[rng.Intn(len(anc))]
+	}
+	if rng.Intn(10) == 0 {
+		src = cps[rng.Intn(len(cps))] // any stored checkpoint, possibly on another branch
+		nc.c.Count("campaigns-arbitrary-source")
 	}
 	perm := rng.Perm(len(nc.env.keys))
 	k := 1 + rng.Intn(len(perm))
